@@ -8,7 +8,7 @@ import os
 from sa import flow
 from sa.model import AnalysisError, dotted, names_in, unparse
 from sa.rules import LEVEL_TEXT, rule
-from sa.rules.util import is_self_attr, iter_body_nodes, own_methods, qual
+from sa.rules.util import callee, closure_functions, is_self_attr, iter_body_nodes, own_methods, qual
 
 LEVEL_TEXT["C06"] = (
     "Decides structural necessary conditions of C06: unknown-division tuples have npartitions+1 entries; an npartitions "
@@ -205,6 +205,8 @@ def r06d(ctx):
         arg = unparse(lndefs.expand(v.args[0], at=p.stmt)) if v.args else ""
         if "self.frame.dependencies()" in arg and not isinstance(v.args[0], ast.GeneratorExp):
             arg = "child"  # an input of the frame (held in a local)
+        elif v.args and isinstance(lndefs.expand(v.args[0], at=p.stmt), ast.Call) and _picks_input(model, ln, lndefs.expand(v.args[0], at=p.stmt)):
+            arg = "child"  # an input of the frame chosen by a package helper that receives self.frame
         if arg in ("child", "self.frame.frame"):
             facts = [unparse(t) for t, pol in flow.facts(p) if pol]
             need = "self.frame._is_length_preserving" if arg == "child" else "self.frame.frame._is_length_preserving"
@@ -227,6 +229,68 @@ def r06d(ctx):
             ctx.bad(cid, c.module.loc(bad[0].stmt), "lengths are answered from file metadata although row filters may be set: the reader drops rows the metadata still counts")
         else:
             ctx.ok(cid, c.module.loc(fn), "no metadata answer when filters are set")
+
+
+def _picks_input(model, cls, call):
+    """`helper(self.frame)` where the helper returns one of `<param>.dependencies()`"""
+    if not any(unparse(a) == "self.frame" for a in call.args):
+        return False
+    t = callee(model, cls.module, cls, call)
+    return t is not None and ".dependencies()" in ast.unparse(t[2])
+
+
+# (function, kind of selection) -> reason
+R06G_EXCEPTIONS = {
+    ("_expr._length_determining_input", "not-blockwise"): "operators that are not partitionwise (shuffles, repartition, sort) have ONE frame input; further dependencies are key collections with the rows of that frame",
+}
+
+
+@rule(
+    "R06g",
+    ["C06", "C01"],
+    """LENGTH PASS-THROUGH PICKS A ROW-EQUIVALENT INPUT: Len._simplify_down / Lengths._simplify_down (and the helpers they
+    call) answer the length of a row-count preserving frame with the length of ONE of its inputs. An elementwise
+    operation matches rows by label, so with several row-aligned inputs the result has the union of their labels:
+    picking an input by position or size (`max(deps, key=...)`, `deps[0]`, `next(iter(deps))`) is only sound where the
+    code has established that there is a single candidate or that all candidates have the same rows - the pick must be
+    dominated by a `len(<...>) == 1` test (one candidate / one common root). len(df.a[df.a > 6] + df.b) returned 3
+    instead of 10 without it.""",
+)
+def r06g(ctx):
+    model = ctx.model
+    n = 0
+    for cname, modname in (("Len", "_reductions"), ("Lengths", "_expr")):
+        c = model.cls(cname, modname)
+        fn = model.method(c, "_simplify_down", own=True).node
+        for mod, cls, f in closure_functions(model, c.module, c, fn, depth=3):
+            defs = flow.Defs(f)
+            fq = qual(cls, f) if cls is not None else f"{mod.name.split('.', 1)[-1]}.{f.name}"
+            for node in ast.walk(f):
+                pick = None
+                if isinstance(node, ast.Call) and isinstance(node.func, ast.Name) and node.func.id in ("max", "min", "next") and node.args:
+                    pick = node.args[0]
+                elif isinstance(node, ast.Subscript) and isinstance(node.ctx, ast.Load) and isinstance(node.slice, (ast.Constant, ast.UnaryOp)):
+                    pick = node.value
+                if pick is None:
+                    continue
+                p = flow.point_of(f, node)
+                if p is None:
+                    continue
+                src = ast.unparse(defs.expand(pick, at=p.stmt))
+                if ".dependencies()" not in src:
+                    continue
+                n += 1
+                cid = f"{fq}:pick:{unparse(node)[:50]}"
+                fs = list(flow.facts(p))
+                one = [unparse(t) for t, pol in fs if pol and isinstance(t, ast.Compare) and len(t.ops) == 1 and isinstance(t.ops[0], ast.Eq) and "len(" in unparse(t.left) and isinstance(t.comparators[0], ast.Constant) and t.comparators[0].value == 1]
+                notbw = [unparse(t) for t, pol in fs if not pol and isinstance(t, ast.Call) and unparse(t.func) == "isinstance" and "Blockwise" in unparse(t.args[1])]
+                if one:
+                    ctx.ok(cid, mod.loc(node), f"single candidate / single common root established by `{one[0]}`")
+                elif notbw and (fq, "not-blockwise") in R06G_EXCEPTIONS:
+                    ctx.exempt(cid, mod.loc(node), R06G_EXCEPTIONS[(fq, "not-blockwise")])
+                else:
+                    ctx.bad(cid, mod.loc(node), f"`{unparse(node)}` picks one of several inputs of a row-count preserving frame by position/size without establishing that they have the same rows: an elementwise result has the UNION of its inputs' labels (len(df.a[df.a > 6] + df.b) is 10, the first input has 3 rows)")
+    ctx.floor("length pass-through input picks", n, 2)
 
 
 def _safe_params(model, k):
